@@ -423,6 +423,41 @@ def main(ctx):
                 continue
             kind = "number" if isinstance(want, float) or want is None else "string"
             ctx.violation(("literal-" + kind, spelling_kind(src)), {"case": src, "want": wenc, "got": got})
+        # ---- d2. the same spellings in every OTHER position where a literal denotes a name or a label rather than an operand: property
+        # names of object literals (data, getter, setter, method), computed member access, case labels - all must denote the value the
+        # spelling denotes as an operand (one metamorphic program per spelling; expected [true, true, true, 'v', 'v', true, 'w'])
+        pos_src, pos_sp = [], []
+        for sp, want in nums:
+            if want is None or want != want or sp.startswith("-") or sp.startswith("+"):
+                continue
+            prog = ("(function () { var k = Object.keys({%(s)s: 1})[0]; var g = Object.keys({get %(s)s() { return 1; }})[0]; var st = Object.keys({set %(s)s(v) { }})[0]; var o = {%(s)s: 'v'}; "
+                    "var sw; switch (%(s)s) { case %(s)s: sw = true; break; default: sw = false; } var a = []; a[0] = 'w'; "
+                    "return [k === String(%(s)s), g === String(%(s)s), st === String(%(s)s), o[%(s)s], o[String(%(s)s)], sw, (%(s)s === 0 ? a[%(s)s] : 'w')]; })()" % {"s": sp})
+            pos_src.append(prog)
+            pos_sp.append(sp)
+        for sp, want in strs[: (150 if ctx.quick else 3000)]:
+            if want is None or "\n" in sp:
+                continue
+            prog = ("(function () { var k = Object.keys({%(s)s: 1})[0]; var g = Object.keys({get %(s)s() { return 1; }})[0]; var st = Object.keys({set %(s)s(v) { }})[0]; var o = {%(s)s: 'v'}; "
+                    "var sw; switch (%(s)s) { case %(s)s: sw = true; break; default: sw = false; } "
+                    "return [k === %(s)s, g === %(s)s, st === %(s)s, o[%(s)s], o[String(%(s)s)], sw, 'w']; })()" % {"s": sp})
+            pos_src.append(prog)
+            pos_sp.append(sp)
+        pres = ep.map({"mod": "checks.C13", "fn": "w_literals"}, [{"srcs": pos_src[i:i + 200]} for i in range(0, len(pos_src), 200)], batch=1, timeout=600)
+        flat = []
+        for r in pres:
+            flat += (r or {}).get("res", [])
+        WANT_POS = ["a", None, [["b", True], ["b", True], ["b", True], ["s", "v"], ["s", "v"], ["b", True], ["s", "w"]]]
+        for sp, src, got in zip(pos_sp, pos_src, flat):
+            ctx.count()
+            ok = isinstance(got, list) and len(got) == 3 and got[0] == "a" and got[2] == WANT_POS[2]
+            if ok:
+                ctx.nontrivial(("litpos", sp))
+                continue
+            if ctx.known_cell(h(["litpos", sp]), h(got, 10)):
+                continue
+            ctx.violation(("literal-as-name", spelling_kind(sp)), {"case": src, "spelling": sp, "want": WANT_POS[2], "got": got,
+                                                                   "monitor": "metamorphic: the spelling as property name / accessor name / case label vs as an operand"})
         # ---- e. rejection
         rej = rejection_cases(fixed, base[:120] + [m + ";" for m in mins[:200]]) + rejection_cases(rng, base[120:180])
         rres = ep.map({"mod": "checks.C13", "fn": "w_parse"}, [{"srcs": [x[1] for x in rej[i:i + 200]], "eval": False} for i in range(0, len(rej), 200)],
